@@ -5,6 +5,21 @@ HERE = os.path.dirname(os.path.dirname(os.path.abspath(__file__)))
 
 # id -> (engine, category, technique, text, note)
 CHECKS = {
+ "C02": ("E3-lite shellsim (real forward_via_connection / handle_uplink_packet / flush_all_batches over loopback, virtual clock)", "exploration",
+         "model-based stateful property testing: generated send/ACK/SRTLA-ACK/NAK/reset histories (proptest Vec<Op> + interpreter) against a per-link set model in lock-step",
+         "After every op of a generated history the real per-link in-flight count equals the size of an independent set model (insert at flush, retire by cumulative ACK on every link, by SRTLA ACK on one holder with the arrival link first, by a NAK on at most one holder, by reset), is never negative, and get_score equals window/(in-flight+queued+1). Covers late sends below the ACK high-water mark, ACK jumps across the 64-wide fast path, duplicate/stale ACKs, probe copies, ranges and resets with outstanding packets.",
+         "Sequence spans do not wrap (as stated). Where several links could absorb an SRTLA ACK/NAK the oracle accepts any one holder and follows the code. Flush timing is read from the real queue depth. Held on what was explored; absence not proved.",
+         "5/C02"),
+ "C05": ("E3-lite shellsim + real SequenceTracker / attribute_nak / apply_connection_changes", "exploration",
+         "model-based stateful property testing: generated routing/NAK histories against an independent ownership model; per-NAK delta check on all links",
+         "Around every NAKed number (real NAK packets through handle_uplink_packet, or number-by-number through the real attribute_nak) the (loss count, window, in-flight) deltas on all links show at most one charged link, which held the packet, charged exactly (+1, -100 floored at 1000, -1); while the independent ownership model (last unique routing per slot, 5 s, purged on link removal) remembers a carrier no other link is charged; unknown/repeated NAKs change nothing.",
+         "Ownership model written from the statement (5000 ms inclusive, slot = seq mod 16384). Probe copies are queued the way send_stall_probes does. Held on what was explored.",
+         "5/C05"),
+ "C06": ("E1 core histories + E3 shellsim tier (real handle_housekeeping)", "exploration",
+         "stateful property testing: inductive invariant checked after every op of generated timed histories on a real SrtlaConnection; real housekeeping ticks with the mode chosen per tick",
+         "Window in [1000,60000] after every op; 20000 on a new link and after mark_for_recovery/reset_for_reconnect; NAK ops never raise, ACK/recovery ops never lower; fast recovery entered only by a NAK at <=2000 and left only at >=12000 or on reset/REG3; in-flight arguments up to i32::MAX (overflow checks on). Shell tier: real handle_housekeeping ticks in classic mode never move the window of a link that stays connected, while enhanced ticks in the same histories do (counted).",
+         "REG3 counts as a link reset for leaving fast recovery. Held on what was explored.",
+         "5/C06"),
  "C15": ("proptest+exhaustive (+libFuzzer c15_codec in thorough)", "exploration",
          "differential testing against an independent reference decoder: exhaustive for inputs <=2 bytes and all type codes x guard lengths, proptest-generated beyond; builder round-trips",
          "Every public decoder/predicate agrees with an independently written reference decoder on every explored byte string (exhaustive for lengths 0..2 and for all 65536 type codes at every guard length; generated typed frames, NAK loss lists and mutated keepalives up to 1500 bytes); NAK output size bound; every builder decodes back to its arguments with exact lengths.",
